@@ -21,6 +21,7 @@ EXPLANATION = (
     'RuntimeError; there is no loop folding several operators at one bracket level.  The round-trip equalities themselves '
     'quantify over all values and are not decided (that would be symbolic execution of the stack machine).'
     ' The tokeniser regex is the one Category.parse uses (found by role); Feature.parse must build the three pairs exactly in the order written (an in-place sort of the pair list is a change of value); the stack machine is walked with symbolic pops wherever the closing-bracket reduction lives (inline, helper function).'
+    ' Third round: every category string of the shipped model files is well-formed text (R5.4, independent reader of sa/datafiles.py).'
 )
 TRUSTED = ['CPython ast', 're._parser (sre_parse) for the tokeniser regex', 'sa/pysym.py path walker']
 
@@ -409,4 +410,8 @@ def check(repo, rep, tier):
     cls = r_delimiters(mod, rep)
     r_feature(mod, rep)
     r_associativity(mod, rep)
+    rep.rule('R5.4', 'every category string of the shipped model files is well-formed text (read by an independent reader of the same grammar)')
+    from .c17 import r_data
+    n = r_data(repo, rep, 'R5.4', only_well_formed=True)
+    rep.floor('shipped category strings read', n, 1000)
     rep.floor('tokeniser delimiters', len(cls), 9)
